@@ -332,6 +332,10 @@ pub trait KemOps: Send + Sync {
     /// thread index), decapsulate `reps` times concurrently; every result is compared with the value the same
     /// call gave sequentially beforehand. Returns (mismatches, calls).
     fn decap_storm(&self, ikm: &[u8], threads: usize, reps: usize, auth: bool) -> (u64, u64);
+    /// `window` key pairs are derived and remembered; then `n` private-key objects are constructed and dropped on
+    /// this thread; then each remembered private key is parsed afresh and its public key recomputed.
+    /// Returns (objects constructed, mismatches).
+    fn key_mill(&self, ikm: &[u8], n: u64, window: usize) -> (u64, u64);
     /// Display and Debug renderings of every error variant (feature sets must agree on them)
     fn error_strings(&self) -> Vec<String>;
 }
@@ -421,6 +425,35 @@ where
         });
         (bad, (keys.len() * reps) as u64)
     }
+    fn key_mill(&self, ikm: &[u8], n: u64, window: usize) -> (u64, u64) {
+        let keys: Vec<(Vec<u8>, Vec<u8>)> = (0..window)
+            .map(|j| {
+                let mut seed = ikm.to_vec();
+                seed.push(j as u8);
+                let (sk, pk) = M::derive_keypair(&seed);
+                (sk.to_bytes().to_vec(), pk.to_bytes().to_vec())
+            })
+            .collect();
+        // the last thing the library saw before the mill: key 0 and its public key
+        let a = M::PrivateKey::from_bytes(&keys[0].0).unwrap();
+        let _ = M::sk_to_pk(&a).to_bytes();
+        let filler = keys[window / 2].0.clone();
+        let mut made = 0u64;
+        for _ in 0..n {
+            let k = M::PrivateKey::from_bytes(std::hint::black_box(&filler));
+            made += k.is_ok() as u64;
+            std::hint::black_box(&k);
+        }
+        let mut bad = 0u64;
+        for (sk, pk) in keys.iter().rev() {
+            let k = M::PrivateKey::from_bytes(sk).unwrap();
+            made += 1;
+            if M::sk_to_pk(&k).to_bytes().as_slice() != pk.as_slice() {
+                bad += 1;
+            }
+        }
+        (made, bad)
+    }
     fn error_strings(&self) -> Vec<String> {
         let all = [
             HpkeError::MessageLimitReached,
@@ -464,13 +497,15 @@ where
             "pk" => {
                 let v = at(M::PublicKey::from_bytes(b), "")?;
                 let re = v.to_bytes().to_vec();
-                let eq = M::PublicKey::from_bytes(&re).map(|w| w == v).unwrap_or(false);
+                #[allow(clippy::eq_op)]
+                let eq = M::PublicKey::from_bytes(&re).map(|w| w == v && v == w && v.clone() == v && v == v).unwrap_or(false);
                 Ok((re, eq))
             }
             "sk" => {
                 let v = at(M::PrivateKey::from_bytes(b), "")?;
                 let re = v.to_bytes().to_vec();
-                let eq = M::PrivateKey::from_bytes(&re).map(|w| w == v).unwrap_or(false);
+                #[allow(clippy::eq_op)]
+                let eq = M::PrivateKey::from_bytes(&re).map(|w| w == v && v == w && v.clone() == v && v == v).unwrap_or(false);
                 Ok((re, eq))
             }
             _ => {
@@ -889,6 +924,10 @@ macro_rules! suite_row {
             (3, 0xFFFF) => Some(Box::new(Sx::<ExportOnlyAead, HkdfSha512, $kemty>(PhantomData)) as Box<dyn SuiteOps>),
             (1, 0x7777) => Some(Box::new(Sx::<crate::probe::ProbeAead, HkdfSha256, $kemty>(PhantomData)) as Box<dyn SuiteOps>),
             (3, 0x7777) => Some(Box::new(Sx::<crate::probe::ProbeAead, HkdfSha512, $kemty>(PhantomData)) as Box<dyn SuiteOps>),
+            (1, 0x7778) => Some(Box::new(Sx::<crate::probe::ProbeAead24, HkdfSha256, $kemty>(PhantomData)) as Box<dyn SuiteOps>),
+            (3, 0x7778) => Some(Box::new(Sx::<crate::probe::ProbeAead24, HkdfSha512, $kemty>(PhantomData)) as Box<dyn SuiteOps>),
+            (1, 0x7779) => Some(Box::new(Sx::<crate::probe::ProbeAead8, HkdfSha256, $kemty>(PhantomData)) as Box<dyn SuiteOps>),
+            (3, 0x7779) => Some(Box::new(Sx::<crate::probe::ProbeAead8, HkdfSha512, $kemty>(PhantomData)) as Box<dyn SuiteOps>),
             _ => None,
         }
     };
